@@ -16,8 +16,19 @@ import (
 	"verif/sim/simnet"
 )
 
-var ErrInjRead = errors.New("injected transport read failure")
-var ErrInjWrite = errors.New("injected transport write failure")
+// The injected transport errors are shaped like *net.OpError: they wrap an
+// errno-like inner error (Unwrap). The root cause the statement speaks of is
+// the transport's error itself, not what that error wraps.
+type injErr struct {
+	msg   string
+	inner error
+}
+
+func (e *injErr) Error() string { return e.msg + ": " + e.inner.Error() }
+func (e *injErr) Unwrap() error { return e.inner }
+
+var ErrInjRead error = &injErr{"injected transport read failure", errors.New("connection reset by peer")}
+var ErrInjWrite error = &injErr{"injected transport write failure", errors.New("broken pipe")}
 
 type Msg struct {
 	Type    byte
